@@ -159,6 +159,9 @@ pub enum StmFilter {
     AsciiHex,
     /// LZW as standard encoders write it (weezl, /EarlyChange 1)
     Lzw,
+    /// two stages: /Filter [/ASCIIHexDecode /FlateDecode] (parameters, if any, belong to the second:
+    /// /DecodeParms [null << .. >>])
+    HexFlate,
 }
 
 #[derive(Clone, Debug, PartialEq)]
@@ -337,12 +340,22 @@ pub fn ascii_hex(data: &[u8]) -> Vec<u8> {
     out
 }
 
+fn filter_val(names: &str) -> Val {
+    let v: Vec<Val> = names.split(' ').map(Val::name).collect();
+    if v.len() == 1 {
+        v.into_iter().next().unwrap()
+    } else {
+        Val::Arr(v)
+    }
+}
+
 pub fn apply_filter(f: StmFilter, data: &[u8]) -> (Vec<u8>, Option<&'static str>) {
     match f {
         StmFilter::None => (data.to_vec(), None),
         StmFilter::FlateStored => (zlib_stored(data), Some("FlateDecode")),
         StmFilter::AsciiHex => (ascii_hex(data), Some("ASCIIHexDecode")),
         StmFilter::Lzw => (lzw(data, true), Some("LZWDecode")),
+        StmFilter::HexFlate => (ascii_hex(&zlib_stored(data)), Some("ASCIIHexDecode FlateDecode")),
     }
 }
 
@@ -557,7 +570,7 @@ pub fn write_doc(spec: &DocSpec) -> Written {
                 ("First".into(), Val::Int(first as i64)),
             ];
             if let Some(f) = fname {
-                d.push(("Filter".into(), Val::name(f)));
+                d.push(("Filter".into(), filter_val(f)));
             }
             let off = out.len() - base;
             out.extend_from_slice(format!("{} 0 obj\n", os.num).as_bytes());
@@ -641,7 +654,7 @@ pub fn write_doc(spec: &DocSpec) -> Written {
                     }
                 }
                 let row = w[0] + w[1] + w[2];
-                let use_predictor = *predictor != 0 && matches!(filter, StmFilter::FlateStored | StmFilter::Lzw) && row > 0;
+                let use_predictor = *predictor != 0 && matches!(filter, StmFilter::FlateStored | StmFilter::Lzw | StmFilter::HexFlate) && row > 0;
                 if use_predictor {
                     data = predict(&data, row, *predictor);
                 }
@@ -654,10 +667,11 @@ pub fn write_doc(spec: &DocSpec) -> Written {
                     d.push(("Index".into(), Val::Arr(rs.iter().flat_map(|&(f, c)| [Val::Int(f as i64), Val::Int(c as i64)]).collect())));
                 }
                 if let Some(f) = fname {
-                    d.push(("Filter".into(), Val::name(f)));
+                    d.push(("Filter".into(), filter_val(f)));
                 }
                 if use_predictor {
-                    d.push(("DecodeParms".into(), Val::dict(vec![("Predictor", Val::Int(*predictor as i64)), ("Columns", Val::Int(row as i64))])));
+                    let parms = Val::dict(vec![("Predictor", Val::Int(*predictor as i64)), ("Columns", Val::Int(row as i64))]);
+                    d.push(("DecodeParms".into(), if *filter == StmFilter::HexFlate { Val::Arr(vec![Val::Null, parms]) } else { parms }));
                 }
                 apply_overrides(&mut d);
                 out.extend_from_slice(format!("{} 0 obj\n", num).as_bytes());
@@ -827,6 +841,13 @@ pub fn strict_read(bytes: &[u8], spec: &DocSpec, k: usize) -> Result<BTreeMap<u3
                         unhex(&t).ok_or("hex")?
                     }
                     StmFilter::FlateStored => unstored(raw).ok_or("stored zlib")?,
+                    StmFilter::HexFlate => {
+                        let mut t = std::str::from_utf8(raw).map_err(|_| "hex")?.replace(['\n', '>'], "");
+                        if t.len() % 2 == 1 {
+                            t.push('0');
+                        }
+                        unstored(&unhex(&t).ok_or("hex")?).ok_or("stored zlib")?
+                    }
                     StmFilter::Lzw => {
                         let mut o = vec![];
                         weezl::decode::Decoder::with_tiff_size_switch(weezl::BitOrder::Msb, 8).into_stream(&mut o).decode_all(raw).status.map_err(|_| "lzw")?;
@@ -834,7 +855,7 @@ pub fn strict_read(bytes: &[u8], spec: &DocSpec, k: usize) -> Result<BTreeMap<u3
                     }
                 };
                 let row = w[0] + w[1] + w[2];
-                let data = if *predictor != 0 && matches!(filter, StmFilter::FlateStored | StmFilter::Lzw) && row > 0 { unpredict(&data, row, *predictor).ok_or("predictor")? } else { data };
+                let data = if *predictor != 0 && matches!(filter, StmFilter::FlateStored | StmFilter::Lzw | StmFilter::HexFlate) && row > 0 { unpredict(&data, row, *predictor).ok_or("predictor")? } else { data };
                 let size = geti(b"/Size ").ok_or("size")?;
                 let index: Vec<u64> = match find_from(head, 0, b"/Index [") {
                     Some(i) => {
@@ -963,6 +984,7 @@ fn filter_name(f: StmFilter) -> &'static str {
         StmFilter::FlateStored => "flate_stored",
         StmFilter::AsciiHex => "ascii_hex",
         StmFilter::Lzw => "lzw",
+        StmFilter::HexFlate => "hex_flate",
     }
 }
 fn filter_from(s: &str) -> Option<StmFilter> {
@@ -971,6 +993,7 @@ fn filter_from(s: &str) -> Option<StmFilter> {
         "flate_stored" => StmFilter::FlateStored,
         "ascii_hex" => StmFilter::AsciiHex,
         "lzw" => StmFilter::Lzw,
+        "hex_flate" => StmFilter::HexFlate,
         _ => return None,
     })
 }
